@@ -349,6 +349,14 @@ def gen_params(rng, d, prof, fwd):
     walk_limits = [1200, 1200, 1200, MAX_INT, 900, 40000, 99999, 2000000]
     maxacc = rng.choice(walk_limits)
     maxegr = rng.choice(walk_limits)
+    # small and UNEQUAL limits (rows slower than a limit are then dropped from the table by gen_case, as a router would):
+    # the two limits are told apart, and a table can be empty because of its limit
+    if rng.chance(prof.get("psmall_walk", 0.2)):
+        small = [g, 2 * g, 5 * g] if g else [60, 120, 300, 30]
+        if rng.chance(0.5):
+            maxacc = rng.choice(small)
+        if rng.chance(0.5) or maxacc >= 900:
+            maxegr = rng.choice(small)
     return dict(scen=scen, time=t, minw=minw, maxtt=maxtt, maxacc=maxacc, maxegr=maxegr, maxtr=maxtr, maxfw=maxfw, fwd=1 if fwd else 0)
 
 
@@ -458,6 +466,8 @@ def gen_case(rng, prof, nq):
                     q["maxtt"] = MAX_INT
                 if rng.chance(0.6):
                     q["scen"] = 1
+        acc = [r for r in acc if r[1] <= q["maxacc"]]
+        egr = [r for r in egr if r[1] <= q["maxegr"]]
         out.append("route %s 0 %s %s" % (q_text(q), rows_text(acc), rows_text(egr)))
         if rng.chance(prof.get("palt", 0.25)):
             out.append("route %s 1 %s %s" % (q_text(q), rows_text(acc), rows_text(egr)))
